@@ -48,12 +48,12 @@ func unsupp(format string, a ...any) { panic(unsupported{fmt.Sprintf(format, a..
 // opaqueTypes are external named struct types modelled as one abstract handle.
 var opaqueTypes = map[string]bool{
 	"net/netip.Addr": true, "net/netip.Prefix": true, "net/netip.AddrPort": true,
-	"time.Time": true, "strings.Builder": false,
+	"time.Time": true, "strings.Builder": true,
 	"unique.Handle[net/netip.addrDetail]": true,
 	"sync.Mutex":                          true, "sync.RWMutex": true, "sync.Once": true,
 	"sync/atomic.Int32": true, "sync/atomic.Int64": true, "sync/atomic.Uint64": true, "sync/atomic.Bool": true,
 	"log/slog.Attr": true, "log/slog.Value": true, "log/slog.Record": true, "log/slog.Level": false,
-	"bufio.Scanner": true, "bytes.Buffer": true, "net/url.Userinfo": true,
+	"bufio.Scanner": true, "encoding/json.Decoder": true, "bytes.Buffer": true, "net/url.Userinfo": true,
 	"reflect.Value": true, "sync.Pool": true, "sync.WaitGroup": true, "sync.Map": true,
 	"encoding/json.Encoder": true, "log/slog.TextHandler": true, "log/slog.HandlerOptions": true,
 	"net/http.Request": true, "net/http.Header": false, "context.Context": false,
@@ -347,13 +347,57 @@ func iteVal(c T, a, b Val) Val {
 		out.ptr = a.ptr
 	}
 	if len(a.fns) > 0 || len(b.fns) > 0 {
-		for _, f := range a.fns {
-			f.cond = and(c, f.cond)
-			out.fns = append(out.fns, f)
+		out.fns = mergeAlts(c, a.fns, b.fns)
+	}
+	return out
+}
+
+// mergeAlts joins two sets of possible call targets; a target present on
+// both sides keeps one entry.
+func mergeAlts(c T, as, bs []FuncAlt) []FuncAlt {
+	sameTarget := func(x, y FuncAlt) bool {
+		if x.fn != y.fn || x.builtin != y.builtin || len(x.bindings) != len(y.bindings) || (x.bound == nil) != (y.bound == nil) {
+			return false
 		}
-		for _, f := range b.fns {
-			f.cond = and(not(c), f.cond)
-			out.fns = append(out.fns, f)
+		for i := range x.bindings {
+			if !sameVal(x.bindings[i], y.bindings[i]) {
+				return false
+			}
+		}
+		if x.bound != nil && !sameVal(*x.bound, *y.bound) {
+			return false
+		}
+		return true
+	}
+	var out []FuncAlt
+	used := make([]bool, len(bs))
+	for _, x := range as {
+		matched := false
+		for j, y := range bs {
+			if !used[j] && sameTarget(x, y) {
+				used[j] = true
+				matched = true
+				nx := x
+				if x.cond == y.cond {
+					nx.cond = x.cond
+				} else {
+					nx.cond = ite(c, x.cond, y.cond)
+				}
+				out = append(out, nx)
+				break
+			}
+		}
+		if !matched {
+			nx := x
+			nx.cond = and(c, x.cond)
+			out = append(out, nx)
+		}
+	}
+	for j, y := range bs {
+		if !used[j] {
+			ny := y
+			ny.cond = and(not(c), y.cond)
+			out = append(out, ny)
 		}
 	}
 	return out
